@@ -33,6 +33,12 @@ def sha(*parts):
     return h.hexdigest()[:16]
 
 
+def sha256_file(path):
+    import hashlib
+    with open(path, 'rb') as f:
+        return hashlib.sha256(f.read()).hexdigest()
+
+
 def hash_files(paths):
     h = hashlib.sha1()
     for p in sorted(paths):
